@@ -10,6 +10,17 @@ for f in sorted(glob.glob(HERE + '/evidence/C*.json')):
     ev = json.load(open(f))
     for r in ev['coverage'].get('rules', []):
         out.append(f"| {ev['property_id']} | {r['rule']} | {r['instances']} | {r['clause'].replace('|', '/')[:230]} |")
+out.append("\n### 9.3b Dependency rules (generated: rules a property runs that are owned by another property, see 9.7)\n")
+out.append("| property | rules run by dependency |\n|---|---|")
+OWN = {'C01': ('R-C01',), 'C02': ('R-C02', 'R-overlap', 'R-kahn'), 'C03': ('R-tr', 'R-layout'), 'C12': ('R-tr', 'R-layout', 'R-C12'),
+       'C05': ('R-C05', 'R-intlog'), 'C07': ('R-C07', 'R-tick-order'), 'C10': ('R-C10', 'R-intlog'), 'C16': ('R-C16', 'R-tick-order', 'R-gen')}
+for f in sorted(glob.glob(HERE + '/evidence/C*.json')):
+    ev = json.load(open(f))
+    pid = ev['property_id']
+    own = OWN.get(pid, ('R-' + pid,))
+    dep = sorted({r['rule'] for r in ev['coverage'].get('rules', []) if not r['rule'].startswith(own)})
+    if dep:
+        out.append(f"| {pid} | {', '.join(dep)} |")
 out.append("\n### 9.4 Seeded changes and which rule catches them\n")
 out.append("Each change was written by an independent sub-agent that saw only the property text and a scratch worktree, confirmed by the "
            "framework author (demo fails with / passes without the change; the full baseline suite still passes with it) and is kept under "
